@@ -240,7 +240,7 @@ CLAIMS = {
         "run_timeout=false leaves only derivable tuples, keeps every input and a well-formed value (timeout_false_sound); after any number of interruptions "
         "at any points a completing call leaves exactly the least model of the original inputs (resume_complete); the same for every stratified program with "
         "aggregation / negation relative to an uninterrupted reference run (timeout_false_sound_agg, resume_complete_agg, Props/C13Agg.lean). Tied by compiled programs with "
-        "#![generate_run_timeout] under the virtual-clock hook, for EVERY crash point k of every case plus repeated interruptions. Physical level (Props/C13Phys.lean over Model/EnginePhysTimeout.lean): timeout_sound_phys, timeout_true_complete_phys, resume_complete_phys (any number of interruptions: the indices dropped by early returns are rebuilt). Props/C13PhysAgg.lean: over the physical indices also for stratified programs with aggregation / negation, relative to an uninterrupted reference run (timeout_false_sound_phys_agg, timeout_true_complete_phys_agg, resume_complete_phys_agg). Props/C13PhysLat.lean: run_timeout of the physical engine with lattices (timeout_sound_physLat, resume_complete_physLat); tie `eng runtopl`. Props/C14PhysPar.lean (Model/EnginePhysParTimeout.lean): run_timeout of ascent_par! programs over the concurrent indices - every schedule, pool and deadline: no panic, sound, `true` = least model, resumable in any pool (timeout_never_panics_physPar, timeout_sound_physPar, timeout_true_complete_physPar, resume_complete_physPar); tie `eng runtopp`.",
+        "#![generate_run_timeout] under the virtual-clock hook, for EVERY crash point k of every case plus repeated interruptions. Physical level (Props/C13Phys.lean over Model/EnginePhysTimeout.lean): timeout_sound_phys, timeout_true_complete_phys, resume_complete_phys (any number of interruptions: the indices dropped by early returns are rebuilt). Props/C13PhysAgg.lean: over the physical indices also for stratified programs with aggregation / negation, relative to an uninterrupted reference run (timeout_false_sound_phys_agg, timeout_true_complete_phys_agg, resume_complete_phys_agg). Props/C13PhysLat.lean: run_timeout of the physical engine with lattices (timeout_sound_physLat, resume_complete_physLat); tie `eng runtopl`. Props/C14PhysPar.lean (Model/EnginePhysParTimeout.lean): run_timeout of ascent_par! programs over the concurrent indices - every schedule, pool and deadline: no panic, sound, `true` = least model, resumable in any pool (timeout_never_panics_physPar, timeout_sound_physPar, timeout_true_complete_physPar, resume_complete_physPar); tie `eng runtopp`. Props/C14PhysParLat.lean (Model/EnginePhysParLatTimeout.lean): the same for ascent_par! programs WITH lattices (timeout_sound_physParLat, timeout_true_complete_physParLat, resume_complete_physParLat); tie `eng runtoppl`.",
    design_ref="DESIGN.md §8 C14", note=ENGINE_NOTE + " The wall clock is replaced by the hook (ascent::internal::verif); lattice programs: Props/C13L."),
  "C19": dict(
    engine="tie-C-ds",
